@@ -158,6 +158,24 @@ fn bounds(ch: &mut Choices, case: &mut Case) -> Result<(), String> {
         } else if !stream.is_empty() {
             return Err(format!("`{text}`: iter_range({t}, {to}) yields intervals although from >= min(to, 10000-01-01)"));
         }
+        // with an interval-size bound the stream may be cut short, but every reported interval
+        // still lies inside [from, min(to, 10000-01-01)]
+        if ch.chance(35) {
+            let bound = Duration::days(ch.pick(&[1i64, 7, 30, 366, 3660])) + Duration::minutes(ch.int(0, 1440));
+            let bounded = oh.clone().with_context(
+                opening_hours::Context::default()
+                    .with_holidays(g.holidays.holidays.clone())
+                    .approx_bound_interval_size(bound),
+            );
+            case.label("interval_size_bound_context");
+            if let Capped::Done(Ok(stream)) = capped(Some(60_000), || library_stream(&bounded, &opening_hours::localization::NoLocation, t, to, 400)).map_err(|p| format!("`{text}`: iter_range({t}, {to}) with a bound panicked: {p}"))? {
+                for (a, b, _) in &stream {
+                    if *a < t || *b > to_eff || a > b {
+                        return Err(format!("`{text}` with an interval-size bound of {} days: iter_range({t}, {to}) reports {a}..{b}, outside [from, min(to, 10000-01-01)]", bound.num_days()));
+                    }
+                }
+            }
+        }
         // iter_from never leaves the range either
         if ch.chance(30) {
             if let Capped::Done(first) = capped(Some(60_000), || oh.iter_from(t).next()).map_err(|p| format!("`{text}`: iter_from({t}) panicked: {p}"))? {
